@@ -80,7 +80,7 @@ template <class T, int NC> struct OtsuRunner
 {
     vh::Ctx& ctx;
     const char* tn;
-    long unit_fails = 0;
+    long unit_fails = 0, unit_hangs = 0;
 
     void report(Case const& c, std::string const& sig, std::string const& detail) { ++unit_fails; ctx.fail(c.id, sig, detail); }
 
@@ -88,7 +88,10 @@ template <class T, int NC> struct OtsuRunner
     void single(Case const& c)
     {
         ++ctx.counters["otsu_children_single"];
-        vh::IsoResult r = vh::isolated([&](std::string& out) { out = run_case<T, NC>(c.w, c.h, c.vals, c.inverse); }, 10.0);
+        // a wall-clock expiry is confirmed by a second run with a 15x limit (vh::isolated); after three confirmed hangs of a unit no longer
+        auto body_fn = [&](std::string& out) { out = run_case<T, NC>(c.w, c.h, c.vals, c.inverse); };
+        vh::IsoResult r = unit_hangs < 3 ? vh::isolated(body_fn, 10.0) : vh::isolated_once(body_fn, 10.0);
+        if (r.status == "timeout") ++unit_hangs;
         std::string body = r.payload, sans;
         size_t sp = body.find("\x1fSAN:");
         if (sp != std::string::npos) { sans = body.substr(sp); body = body.substr(0, sp); }
@@ -109,7 +112,7 @@ template <class T, int NC> struct OtsuRunner
     {
         if (cs.empty()) return;
         ++ctx.counters["otsu_children_chunk"];
-        vh::IsoResult r = vh::isolated([&](std::string& out) {
+        vh::IsoResult r = vh::isolated_once([&](std::string& out) {      // anything abnormal is re-run case by case below
             for (size_t i = 0; i < cs.size(); ++i)
                 if (!run_case<T, NC>(cs[i].w, cs[i].h, cs[i].vals, cs[i].inverse).empty()) { out = "bad"; return; }
         }, 60.0);
@@ -124,7 +127,7 @@ template <class T, int NC> struct OtsuRunner
         const std::vector<long> A = alphabet<T>();
         const int cells = w * h * NC;
         long total = 1; for (int i = 0; i < cells; ++i) total *= long(A.size());
-        unit_fails = 0;
+        unit_fails = 0; unit_hangs = 0;
         std::string ubase = vh::S() << "otsu/" << tn << "/" << w << "x" << h << "/" << (inverse ? "inverse" : "regular");
         ctx.cur = ubase;
         std::vector<Case> cs;
@@ -176,7 +179,7 @@ template <class T, int NC> struct OtsuRunner
             for (long base = lo; base <= hi; base += 4096 * stride)
             {
                 if (!ctx.take()) continue;
-                unit_fails = 0;
+                unit_fails = 0; unit_hangs = 0;
                 std::string ubase = vh::S() << "otsu/" << tn << "/const" << w << "x" << h << "/" << (inv ? "inverse" : "regular");
                 ctx.cur = ubase;
                 std::vector<Case> cs;
